@@ -727,12 +727,21 @@ func execRed(sp []tspan) Result {
 	}
 	sort.Slice(svcs, func(i, j int) bool { return svcs[i] < svcs[j] })
 	// entry spans by the statement's rule (only used when ids are unique and no parent is missing)
+	// Records with a span id seen before are re-deliveries: the FIRST record of an id is the span (what
+	// dropRedeliveredSpans keeps since fix c03479f), the later ones count for nothing — neither as entry spans nor
+	// for the service of their id.  (Judging ids by their LAST record made the rate detector below take 5 entry
+	// spans for 1 and report 5/300 as "1/60": corpus/trace.ops, `trace red 3:30:4:…;30:30:5:…;…;30:4611686018427388412:4:…`.)
 	bySvc := map[uint64][]tspan{}
 	svcOf := map[uint64]uint64{}
+	var first []tspan
 	for _, s := range sp {
+		if _, dup := svcOf[s.id]; dup {
+			continue
+		}
 		svcOf[s.id] = s.svc
+		first = append(first, s)
 	}
-	for _, s := range sp {
+	for _, s := range first {
 		if ps, ok := svcOf[s.parent]; s.parent == 0 || !ok || ps != s.svc {
 			bySvc[s.svc] = append(bySvc[s.svc], s)
 		}
@@ -752,8 +761,8 @@ func execRed(sp []tspan) Result {
 			durs = append(durs, (e.end-e.start)/1000000)
 		}
 		// the rate is the number of entry spans PER SECOND over the 5-minute window the spans are collected from
-		// (which spans are entry spans when ids repeat is the fold's own choice: `es` follows its rule, last record of
-		// an id names the service); before the repair c12-8 the count of the 5-minute window was divided by 60
+		// (when ids repeat `es` are the entry spans among the FIRST records of the ids, see above); before the repair
+		// c12-8 the count of the 5-minute window was divided by 60
 		if cnt > 0 && f64bits(m.Rate) != f64bits(float64(cnt)/300) && f64bits(m.Rate) == f64bits(float64(cnt)/60) && !rateReported {
 			rateReported = true
 			res.Fails = append(res.Fails, PropFail{Sig: "trace-red/rate-not-per-second", Msg: fmt.Sprintf("service %d: %d entry spans in the 5-minute window, rate %v = %d/60; per second it is %d/300 = %v", sv, cnt, m.Rate, cnt, cnt, float64(cnt)/300)})
